@@ -617,6 +617,125 @@ def provenance(fn, start, pass_through=PASS_THROUGH, follow_all_call_args=False,
     return org
 
 
+
+def symbolic_paths(fn, src, dst, atom_of_call, avoid=(), max_paths=20000):
+    """Enumerate the acyclic CFG paths src -> dst (not entering `avoid`), tracking boolean locals symbolically.
+    `atom_of_call(call)` names the calls whose result is an atom: return (id, 'bool') for a bool result, (id, 'option') for an
+    Option result whose Some/None-ness is the atom, or None.  Materialised booleans (`x = !a`, `x = a || b` lowered to branches and
+    copies, `let need = ...; if need`) are followed through copies, `Not` and constants, and infeasible edges are pruned.
+    Returns the list of constraint dicts {atom id: bool}, one per feasible path, or None when the bound is exceeded."""
+    can = {dst}
+    changed = True
+    while changed:
+        changed = False
+        for b, ss in fn.succ.items():
+            if b not in can and b not in avoid and any(x in can for x in ss):
+                can.add(b)
+                changed = True
+    out = []
+    count = [0]
+
+    def step_block(i, env):
+        b = fn.blocks[i]
+        for st in b['stmts']:
+            d = st['dst']
+            if d['p']:
+                continue
+            r = st['r']
+            val = None
+            if r['rv'] == 'use':
+                o = r['ops'][0]
+                if o['k'] == 'const':
+                    v = str(o.get('v'))
+                    if v in ('true', 'false'):
+                        val = ('const', v == 'true')
+                elif is_place(o) and not o['pl']['p']:
+                    val = env.get(o['pl']['l'])
+            elif r['rv'] == 'unop' and r.get('op') == 'Not':
+                o = r['ops'][0]
+                v = env.get(o['pl']['l']) if is_place(o) and not o['pl']['p'] else None
+                if v is not None:
+                    if v[0] == 'const':
+                        val = ('const', not v[1])
+                    elif v[0] == 'atom':
+                        val = ('atom', v[1], not v[2])
+            elif r['rv'] == 'discr' and not r['pl']['p']:
+                v = env.get(r['pl']['l'])
+                if v is not None and v[0] == 'opt':
+                    val = ('discr', v[1])
+            env[d['l']] = val
+        t = b['term']
+        if t and t['t'] == 'call':
+            c = fn.call_at[i]
+            if not c.dst['p']:
+                a = atom_of_call(c)
+                if a is None:
+                    env[c.dst['l']] = None
+                elif a[1] == 'bool':
+                    env[c.dst['l']] = ('atom', a[0], True)
+                else:
+                    env[c.dst['l']] = ('opt', a[0])
+
+    def go(i, env, cons, seen):
+        if count[0] > max_paths:
+            return
+        env = dict(env)
+        cons = dict(cons)
+        step_block(i, env)
+        if i == dst:
+            count[0] += 1
+            out.append(cons)
+            return
+        t = fn.blocks[i]['term']
+        edges = []
+        if t and t['t'] == 'switch' and is_place(t['discr']) and not t['discr']['pl']['p']:
+            v = env.get(t['discr']['pl']['l'])
+            vals = [vv for vv, _ in t['targets']]
+            for vv, tg in t['targets']:
+                edges.append((tg, vv))
+            edges.append((t['otherwise'], None))
+            for (tg, vv) in edges:
+                if tg not in can or tg in seen:
+                    continue
+                c2 = dict(cons)
+                if v is not None:
+                    if v[0] == 'const':
+                        truth = (vv != 0) if vv is not None else (0 in vals)
+                        if truth != v[1]:
+                            continue
+                    elif v[0] == 'atom':
+                        truth = (vv != 0) if vv is not None else (0 in vals)
+                        aval = truth if v[2] else (not truth)
+                        if c2.get(v[1], aval) != aval:
+                            continue
+                        c2[v[1]] = aval
+                    elif v[0] == 'discr':
+                        if vv is not None:
+                            aval = (vv == 1)
+                        else:
+                            aval = (0 in vals) and (1 not in vals)
+                        if c2.get(v[1], aval) != aval:
+                            continue
+                        c2[v[1]] = aval
+                go(tg, env, c2, seen | {i})
+            return
+        for tg in fn.succ.get(i, []):
+            if tg in can and tg not in seen:
+                go(tg, env, cons, seen | {i})
+
+    import sys as _sys
+    old = _sys.getrecursionlimit()
+    _sys.setrecursionlimit(max(old, 10000))
+    try:
+        if src in can or src == dst:
+            go(src, {}, {}, frozenset())
+    finally:
+        _sys.setrecursionlimit(old)
+    if count[0] > max_paths:
+        return None
+    return out
+
+
 def nearest_user_local(fn, operand):
     """the user variable (or parameter) an operand borrows / copies from, following refs, copies and Deref only"""
     cur = op_local(operand) if isinstance(operand, dict) and 'k' in operand else operand
